@@ -368,7 +368,9 @@ def assembly(draw):
     return {"dims": list(dims), "widths": widths, "jitter": jit, "cells": cells, "orient": orient, "chops": [],
             "offset": draw(_off), "target": draw(st.integers(0, k - 1)),
             # how the target's two faces get their edge specification: no argument / one list each / one list for both
-            "ctor": draw(st.sampled_from(["shared-list", "no-edges", "own-lists"]))}
+            "ctor": draw(st.sampled_from(["shared-list", "no-edges", "own-lists"])),
+            # write once, or write, rebuild the mesh lists from the operations and write again
+            "rewrite": draw(st.sampled_from(["backport", None, "clear-assemble", None]))}
 
 
 _curve = st.tuples(st.sampled_from(CURVES), st.floats(0.0, 2 * math.pi), st.floats(0.15, 0.3)).map(list)
@@ -542,49 +544,8 @@ def describe_ids(vs, ids: List[int]) -> List[Any]:
     return [ids.index(v) if v in ids else f"v{v}" for v in vs]
 
 
-def check_op(case, ctx: Ctx) -> None:
-    built = lt.build(case, with_chops=False)
-    for op in built.ops:
-        for ax in range(3):
-            op.chop(ax, count=2)
-    t = case["target"]
-    pts = built.points[t]
-    ctor = case.get("ctor", "no-edges")
-    if ctor != "no-edges":
-        spec: List[Any] = [None, None, None, None]
-        try:
-            if ctor == "shared-list":
-                new = cb.Loft(cb.Face(pts[:4], spec), cb.Face(pts[4:], spec))
-            else:
-                new = cb.Loft(cb.Face(pts[:4], list(spec)), cb.Face(pts[4:], list(spec)))
-        except Exception as ex:
-            raise Violation("call-raised", f"Loft of two faces with edges=[None]*4 raised {type(ex).__name__}: {ex}", ctor=ctor) from None
-        for ax in range(3):
-            new.chop(ax, count=2)
-        built.ops[t] = new
-        built.mesh = cb.Mesh()
-        for o in built.ops:
-            built.mesh.add(o)
-    op = built.ops[t]
-    calls = case["calls"]
-    facts: Dict[str, Any] = {"calls": [c[0] for c in calls], "blocks": len(built.ops), "rot": case["orient"][t], "ctor": ctor}
-    ctx.label("ctor=" + ctor)
-    model = apply_calls(op, pts, calls, facts)
-
-    # API view: patches that touch each corner
-    try:
-        names = dict(op.patch_names)
-        at_corner = [set(op.get_patches_at_corner(c)) for c in range(8)]
-    except Exception as ex:
-        raise Violation("call-raised", f"patch_names / get_patches_at_corner raised {type(ex).__name__}: {ex}", **facts) from None
-    if names != model.patch:
-        raise Violation("patch-names", f"patch_names {names} but the calls assigned {model.patch}", **facts)
-    for c in range(8):
-        want = {n for s, n in model.patch.items() if c in HEX_SIDES[s]}
-        if at_corner[c] != want:
-            raise Violation("patches-at-corner", f"corner {c}: get_patches_at_corner gives {sorted(at_corner[c])}, sides "
-                            f"holding that corner carry {sorted(want)}", corner=c, **facts)
-
+def verify_file(built, t: int, pts: np.ndarray, model: "Model", facts: Dict[str, Any]) -> None:
+    """writes the mesh and compares every patch, projected face, edge entry and vertex projection with the model"""
     try:
         text, _ = lt.write_text(built.mesh)
     except Exception as ex:
@@ -691,6 +652,66 @@ def check_op(case, ctx: Ctx) -> None:
             raise Violation("corner-projection", f"vertex {vi} (corner {c} of the target): projected to {have}, calls said {want}",
                             corner=c, **facts)
 
+
+def check_op(case, ctx: Ctx) -> None:
+    built = lt.build(case, with_chops=False)
+    for op in built.ops:
+        for ax in range(3):
+            op.chop(ax, count=2)
+    t = case["target"]
+    pts = built.points[t]
+    ctor = case.get("ctor", "no-edges")
+    if ctor != "no-edges":
+        spec: List[Any] = [None, None, None, None]
+        try:
+            if ctor == "shared-list":
+                new = cb.Loft(cb.Face(pts[:4], spec), cb.Face(pts[4:], spec))
+            else:
+                new = cb.Loft(cb.Face(pts[:4], list(spec)), cb.Face(pts[4:], list(spec)))
+        except Exception as ex:
+            raise Violation("call-raised", f"Loft of two faces with edges=[None]*4 raised {type(ex).__name__}: {ex}", ctor=ctor) from None
+        for ax in range(3):
+            new.chop(ax, count=2)
+        built.ops[t] = new
+        built.mesh = cb.Mesh()
+        for o in built.ops:
+            built.mesh.add(o)
+    op = built.ops[t]
+    calls = case["calls"]
+    facts: Dict[str, Any] = {"calls": [c[0] for c in calls], "blocks": len(built.ops), "rot": case["orient"][t], "ctor": ctor}
+    ctx.label("ctor=" + ctor)
+    model = apply_calls(op, pts, calls, facts)
+
+    # API view: patches that touch each corner
+    try:
+        names = dict(op.patch_names)
+        at_corner = [set(op.get_patches_at_corner(c)) for c in range(8)]
+    except Exception as ex:
+        raise Violation("call-raised", f"patch_names / get_patches_at_corner raised {type(ex).__name__}: {ex}", **facts) from None
+    if names != model.patch:
+        raise Violation("patch-names", f"patch_names {names} but the calls assigned {model.patch}", **facts)
+    for c in range(8):
+        want = {n for s, n in model.patch.items() if c in HEX_SIDES[s]}
+        if at_corner[c] != want:
+            raise Violation("patches-at-corner", f"corner {c}: get_patches_at_corner gives {sorted(at_corner[c])}, sides "
+                            f"holding that corner carry {sorted(want)}", corner=c, **facts)
+
+    verify_file(built, t, pts, model, facts)
+    # what the calls addressed is a property of the operation: the file the mesh writes after its lists were rebuilt from
+    # the operations (backport, or clear + assemble) must show exactly the same sides, edges and corners
+    again = case.get("rewrite")
+    if again:
+        try:
+            if again == "backport":
+                built.mesh.backport()
+            else:
+                built.mesh.clear()
+                built.mesh.assemble()
+        except Exception as ex:
+            raise Violation("call-raised", f"{again} after a write raised {type(ex).__name__}: {ex}", **facts) from None
+        verify_file(built, t, pts, model, {**facts, "stage": "after-" + again})
+        ctx.label("rewrite=" + again)
+
     # get_face -------------------------------------------------------------------------------------
     check_get_face(op, pts, facts)
 
@@ -768,6 +789,7 @@ def _fixed_op_cases() -> List[dict]:
             calls.append(["face_add_edge", f, i, "spline", 1.0, 0.2])
     cases = [{**geo, "calls": [c]} for c in calls]
     cases += [{**geo, "ctor": "shared-list", "calls": [c]} for c in calls if c[0] in ("project_edge", "project_side", "face_add_edge")]
+    cases += [{**geo, "rewrite": "backport", "calls": [c]} for c in calls if c[0] != "project_edge" or c[1] < c[2]]
     # a side projected with its edges, then one more label on a single edge of it (by corner pair, or through a neighbouring
     # side): the other edges of the first side must keep their single label
     for s in SIDES:
